@@ -149,3 +149,47 @@ Proof.
   split; [reflexivity|]. f_equal. destruct t as [|b0 t0] eqn:Et; [reflexivity|].
   rewrite group_small by (cbn [length] in *; lia). reflexivity.
 Qed.
+
+(* ---- bytes back to bits (decoder soundness) ---- *)
+Definition bits_of_byte (z : byte) : list bool := map (N.testbit (Byte.to_N z)) [0; 1; 2; 3; 4; 5; 6; 7]%N.
+Definition bytes_to_bits (bs : bytes) : list bool := concat (map bits_of_byte bs).
+
+Lemma bits_of_byte_length z : length (bits_of_byte z) = 8.
+Proof. reflexivity. Qed.
+Lemma bits_byte_of_byte z : bits_byte (bits_of_byte z) = z.
+Proof. destruct z; reflexivity. Qed.
+
+(* a byte whose bit length is at most r is determined by its low r bits *)
+Lemma trunc_byte z r : r <= 8 -> (bit_length_byte z <= N.of_nat r)%N -> bits_byte (firstn r (bits_of_byte z)) = z.
+Proof.
+  intros Hr Hs.
+  do 9 (destruct r as [|r]; [destruct z; first [reflexivity | exfalso; vm_compute in Hs; apply Hs; reflexivity]|]).
+  lia.
+Qed.
+
+(* a non-zero byte is its bits below the top set bit, plus the top set bit *)
+Lemma delim_byte z : z <> x00 ->
+  bits_byte (firstn (N.to_nat (bit_length_byte z - 1)) (bits_of_byte z) ++ [true]) = z /\ (bit_length_byte z - 1 < 8)%N.
+Proof. intros Hz. destruct z; first [congruence | split; vm_compute; reflexivity]. Qed.
+
+Lemma bytes_to_bits_length bs : length (bytes_to_bits bs) = 8 * length bs.
+Proof. unfold bytes_to_bits. induction bs as [|b bs IH]; [reflexivity|]. cbn [map concat length]. rewrite app_length, IH, bits_of_byte_length. lia. Qed.
+
+Lemma group_bytes_to_bits : forall bs, group 8 (bytes_to_bits bs) = map bits_of_byte bs.
+Proof.
+  induction bs as [|b bs IH]; [reflexivity|]. unfold bytes_to_bits in *. cbn [map concat].
+  rewrite group_unfold by (lia || (destruct b; discriminate)).
+  rewrite firstn_app, skipn_app, bits_of_byte_length. rewrite firstn_all2 by (rewrite bits_of_byte_length; lia).
+  rewrite skipn_all2 by (rewrite bits_of_byte_length; lia). cbn [Nat.sub firstn skipn app]. rewrite app_nil_r. now rewrite IH.
+Qed.
+
+(* whole bytes followed by a partial group *)
+Lemma bits_to_bytes_concat (p : bytes) (t : list bool) : length t <= 8 ->
+  bits_to_bytes (bytes_to_bits p ++ t) = p ++ (match t with [] => [] | _ => [bits_byte t] end).
+Proof.
+  intros Ht. rewrite bits_group.
+  rewrite (group_app_full 8 ltac:(lia) (length p)) by (rewrite bytes_to_bits_length; lia).
+  rewrite group_bytes_to_bits, map_app, map_map.
+  assert (map (fun x => bits_byte (bits_of_byte x)) p = p) as -> by (induction p as [|z p IH]; [reflexivity|]; cbn [map]; now rewrite bits_byte_of_byte, IH).
+  f_equal. destruct t as [|b t]; [reflexivity|]. rewrite group_small by (cbn [length] in *; lia). reflexivity.
+Qed.
